@@ -3517,6 +3517,11 @@ class TLSConnection(TLSRecordLayer):
         if not client_cert_chain and resumed_client_cert_chain:
             client_cert_chain = resumed_client_cert_chain
 
+        # an external PSK authenticates the handshake on its own: no
+        # Certificate message was sent, the client saw no chain
+        if selected_psk is not None and external:
+            serverCertChain = None
+
         self.session.create(secret,
                             bytearray(b''),  # no session_id
                             serverHello.cipher_suite,
